@@ -210,3 +210,20 @@ Example C12_writers_are_source_inhabited :
 Proof.
   do 3 eexists. split; [vm_compute; reflexivity|]. split; [reflexivity|]. split; vm_compute; reflexivity.
 Qed.
+
+(* clock_reference.go is regenerated too (Gen/RestGen.v, go/gen/restgen.go) with every int64 / time.Duration operation
+   under an explicit two's complement wrap (sint_wrap 64 z = (z + 2^63) mod 2^64 - 2^63).  Inside the property's range no
+   operation wraps and the regenerated Duration IS cr_duration, the subject of C12_duration; Time hands (0, Duration) to
+   time.Unix.  This makes "every int64 intermediate stays below 2^63" a statement about the source as it is now: another
+   constant, multiplier or divisor in Duration changes the regenerated expression and this proof is re-checked against it. *)
+Require Import Gen.RestGen Proofs.RestGenClock.
+Theorem C12_duration_is_source : forall base ext, 0 <= base < 2 ^ 33 -> 0 <= ext < 2 ^ 9 ->
+  ClockReference_Duration (mk_cr base ext) = cr_duration (mk_cr base ext) /\
+  ClockReference_Time (mk_cr base ext) = (0, cr_duration (mk_cr base ext)).
+Proof. exact duration_is_generated. Qed.
+Print Assumptions C12_duration_is_source.
+(* the largest values of the range; and outside it (base = 2^34) the int64 product really wraps *)
+Example C12_duration_is_source_inhabited :
+  ClockReference_Duration (mk_cr (2 ^ 33 - 1) 511) = 95443717696702 /\
+  ClockReference_Duration (mk_cr (2 ^ 34) 0) <> cr_duration (mk_cr (2 ^ 34) 0).
+Proof. exact (conj (proj1 duration_is_generated_example) duration_wraps). Qed.
